@@ -372,6 +372,29 @@ theorem ci_offsets_index_original (p : Pat) (hp : p.Shape) (dI : Dissect)
     obtain ⟨s, rest, h1, h2, h3, h4⟩ := specDissectIC_leading hs
     exact ⟨s, rest.map Int.ofNat, by rw [← hr, h1]; rfl, h2, h3, h4⟩
 
+/-- `ci_monotone`, quantitatively (all bytes): when the case-sensitive run matches a line with `{0}`
+= `[s, e)`, the ignore-case run matches it with `{0}` = `[s', e')` where `s' ≤ s` and `e' ≤ e` – the
+leading literal and every delimiter are found no later – and with the same number of captures.
+(`ci_boundary_counterexamples` shows `s' < s` happens.) -/
+theorem ci_monotone_no_later (p : Pat) (hp : p.Shape) (d dI : Dissect)
+    (hc : compileEx p.render false = .ok d) (hcI : compileEx p.render true = .ok dI)
+    (line : Bytes) (r : List Int) (hr : matchAll d [line] = .ok [some r]) :
+    ∃ (s e s' e' : Nat) (caps caps' : List Int), r = (s : Int) :: (e : Int) :: caps ∧
+      matchAll dI [line] = .ok [some ((s' : Int) :: (e' : Int) :: caps')] ∧
+      s' ≤ s ∧ e' ≤ e ∧ caps'.length = caps.length := by
+  rw [dissect_eq_spec false p hp d hc] at hr
+  rw [dissect_eq_spec true p hp dI hcI]
+  simp only [List.map_cons, List.map_nil, Except.ok.injEq, List.cons.injEq, and_true, specFor,
+    Bool.false_eq_true, if_false, if_true] at hr ⊢
+  cases hs : specDissect p line with
+  | none => simp [hs] at hr
+  | some r0 =>
+    rw [hs] at hr
+    simp only [Option.map_some, Option.some.injEq] at hr
+    obtain ⟨s, e, caps, s', e', caps', h1, h2, h3, h4, h5⟩ := specDissect_ci_mono_le hs
+    refine ⟨s, e, s', e', caps.map Int.ofNat, caps'.map Int.ofNat, by rw [← hr, h1]; rfl, ?_, h3, h4, by simp [h5]⟩
+    rw [h2]; rfl
+
 /-- **Where the two modes coincide**: when neither the line nor the literals of the pattern contain
 an ASCII upper-case letter (any other bytes, e.g. arbitrary UTF-8, are allowed) ignore-case matching
 IS case-sensitive matching – same matches, same offsets. -/
